@@ -24,12 +24,10 @@ go test -vet=off -count=1 ./route/ ./proxy/... ./config/ ./logger/ ./registry/..
 cp "$SD/demo_test.go" $DEMO
 echo "== demo with the change (must fail)"
 go test -vet=off -count=1 ./$PKG/ -run 'Seed|seed|Demo|demo' 2>&1 | tail -4
+rm -f $DEMO
 cd /verif
-if ! git -C /repo diff --quiet; then echo "/repo dirty"; exit 2; fi
-git -C /repo apply "$SD/patch.diff" || exit 2
-echo "== ./check $ID $TIER on the changed tree"
-./check $ID $TIER > /tmp/seedeval-$$.out 2>&1; rc=$?
-git -C /repo checkout -- .
-grep -E "^(VIOLATION|KNOWN-FINDING|INFRA|C[0-9]+ )" /tmp/seedeval-$$.out | cut -c1-260 | head -6
+echo "== ./check $ID $TIER on the changed tree (VERIF_REPO=$WT; /repo untouched)"
+VERIF_REPO=$WT ./check $ID $TIER > /tmp/seedeval-$$.out 2>&1; rc=$?
+grep -E "^(VIOLATION|KNOWN-FINDING|INFRA|BUILD|C[0-9]+ )" /tmp/seedeval-$$.out | cut -c1-260 | head -6
 echo "check rc=$rc"
 rm -f /tmp/seedeval-$$.out
